@@ -31,6 +31,21 @@ def snapshot(pool, obj, nids):
     return out
 
 
+def readable(pool, host, obj, case):
+    """what READING each name-based Range yields, under pseudo-name n + 2000 — read from a clone that shares the
+    dictionary's content, because the getter caches its default in __dict__"""
+    out = []
+    for t in case["traits"]:
+        if t[1][0] == "DRangeDyn":
+            try:
+                clone = host()
+                clone.__dict__.update(obj.__dict__)
+                out.append([t[0] + 2000, pool.enc(getattr(clone, PYNAME[t[0]]))])
+            except Exception:
+                pass
+    return out
+
+
 def run_case(case):
     pool0 = pvlib.Pool()
     body, moved = {}, []
@@ -105,7 +120,8 @@ def run_case(case):
             mut = [pool.enc(v) for _, v in vals] != venc
         except pvlib.Unencodable:
             mut = True
-        steps.append({"out": out, "names": names, "after": snapshot(pool, obj, nids), "venc": venc, "mut": mut})
+        steps.append({"out": out, "names": names, "after": snapshot(pool, obj, nids) + readable(pool, host, obj, case),
+                      "venc": venc, "mut": mut})
     return {"steps": steps, "orc": orc, "re": rem, "defaults": defaults}
 
 
